@@ -678,7 +678,7 @@ def contracts(reg):
                 raises=[Raises("Exception", sub=True)],
                 note="every call of a library decompressor is given the folder's declared output size (LZMA-alone size field or max_length)",
             ))
-            EXECUTOR_KW[f"{c12_sevenzip.SZ}::{q}"] = {"abstract": False, "inline_calls": False, "inline_local": False}
+            EXECUTOR_KW[f"{c12_sevenzip.SZ}::{q}"] = {"abstract": False, "inline_calls": False, "inline_local": True}
     except Exception:  # noqa  (a pack's contracts() must not raise: the native scope decides then)
         pass
     return out
